@@ -258,9 +258,9 @@ Zeroed(d, off, len) == [x \in 1..Len(d) |-> IF x > off /\ x <= off + len THEN 0 
 Fallocate(S, key, mode, off, len) ==
   IF ~HasOf(S, key) THEN Fail(S, {"EBADF"})
   ELSE LET o == S.of[key]  op == mode \ {"KEEP", "UNSHARE"} IN
-  IF ~Writes(o.acc) THEN Fail(S, {"EBADF"})
+  IF len = 0 THEN Fail(S, {"EINVAL"})                 \* checked before the descriptor's access mode
+  ELSE IF ~Writes(o.acc) THEN Fail(S, {"EBADF"})
   ELSE IF S.ino[o.i].t # "reg" THEN Fail(S, AnyErr)
-  ELSE IF len = 0 THEN Fail(S, {"EINVAL"})
   ELSE IF "UNSHARE" \in mode THEN Fail(S, AnyErr)
   ELSE LET d == S.ino[o.i].data
            grown == IF "KEEP" \in mode THEN d ELSE Resize(d, Max(Len(d), off + len)) IN
